@@ -85,7 +85,7 @@ Definition parse_volume (id idx lba_start num_blocks : N) : M vol :=
     nf <- mul32 (get8 b 16) (bpb_fat_size b) ;;
     first_data <- add32 fat_start nf ;;
     let info_location := le16 b 48 in
-    if bpb_total_blocks b <=? info_location then fail FormatError else
+    if (info_location =? 0) || (fat_start <=? info_location) then fail FormatError else
     info_abs <- add32 lba_start info_location ;;
     let v := mk_vol id idx lba_start num_blocks (slice b 71 11) (get8 b 13) first_data fat_start second
                     None None cc true 0 0 info_abs (le32 b 44) in
